@@ -187,6 +187,33 @@ def rule_generator_seed(ctx: Ctx, repo: Repo) -> None:
               "with sampling unset every call of a block reaches the store exactly once, when the block ends", construct=f"{[str(b)[:80] for b in sc.stored]}")
 
 
+def rule_rate_one_traces_all(ctx: Ctx, repo: Repo) -> None:
+    """R-C18.9: "all of them when the rate is unset or 1" - exact clauses, whatever the sampling algorithm is.  A tracing block with
+    a real tracer object sees eight calls in a row; the tracer's own generator is scripted adversarially (every randrange(n)
+    answers 0 / n-1 / alternates / counts up): with the rate unset or 1 every call is logged; and with any rate a call that is
+    logged is logged once."""
+    from .blocks_model import BlocksScenario
+    tc = repo.fn(M, "trace_calls")
+    ctx.functions.add(tc.fq)
+    scripts = {"always 0": lambda b, k: 0, "always the largest value": lambda b, k: b - 1, "alternating": lambda b, k: (b - 1) if k % 2 else 0, "counting up": lambda b, k: k % b}
+    n = 0
+    for rate in (None, 1):
+        for sname, script in scripts.items():
+            body = f"with trace_calls(L1, 0, None, {rate}):\n" + "".join(f"    EVENTS('call {i}')\n" for i in range(8))
+            sc = BlocksScenario(repo, body)
+            sc.draw = script
+            o = sc.run()
+            n += 1
+            tags = []
+            for lname, tr in sc.logged:
+                at = tr.fields.get("arg_types") if isinstance(tr, R) else None
+                tags += [x.fields["of"].fields["tag"].v for _, x in (at.fields["items"] if isinstance(at, R) and at.kind == "dict" else ()) if isinstance(x, R) and x.kind == "typeof"]
+            ctx.check((o.term is None or o.term[0] == "return") and tags == [f"call {i}" for i in range(8)], "R-C18.9", f"{M}.CallTracer.handle_call",
+                      "with the sample rate unset or 1 every call is traced, whatever the tracer's random generator answers",
+                      construct=f"sample rate {rate}, generator answers {sname}: {len(tags)} of 8 calls logged ({tags})")
+    ctx.floor("R-C18.9", "rate x generator-script scenarios of eight calls", n, 8)
+
+
 def rule_forwarding(ctx: Ctx, repo: Repo) -> None:
     ci = repo.cls(M, "CallTracer")
     ok, why = attr_is_param(repo, ci, "sample_rate", "sample_rate")
@@ -221,5 +248,6 @@ def run(ctx: Ctx, repo: Repo, tier: str) -> None:
     ctx.attempt(rule_return_ignores_untracked, ctx, repo)
     ctx.attempt(rule_sampled_trace_is_complete, ctx, repo)
     ctx.attempt(rule_generator_seed, ctx, repo)
+    ctx.attempt(rule_rate_one_traces_all, ctx, repo)
     ctx.attempt(rule_forwarding, ctx, repo)
     ctx.settle()
